@@ -30,7 +30,7 @@ PKG = "yv-c05"
 TIERS = {
     "quick": {
         "sanity": "MC_Glob_sanity.cfg",
-        "gen": [("MC_Glob_quickA.cfg", ["--real-first", "8", "--real-stride", "5", "--noglob-trees", "2"]),
+        "gen": [("MC_Glob_quickA.cfg", ["--real-first", "9", "--real-stride", "5", "--noglob-trees", "2"]),
                 ("MC_Glob_quickB.cfg", ["--real-first", "0", "--real-stride", "6", "--noglob-trees", "1"])],
         "random": (60, 40),
         "shards": 4,
@@ -38,9 +38,9 @@ TIERS = {
     },
     "thorough": {
         "sanity": "MC_Glob_sanity3.cfg",
-        "gen": [("MC_Glob_thorA.cfg", ["--real-first", "8", "--real-stride", "4", "--noglob-trees", "2"]),
+        "gen": [("MC_Glob_thorA.cfg", ["--real-first", "9", "--real-stride", "4", "--noglob-trees", "2"]),
                 ("MC_Glob_thorB.cfg", ["--real-first", "0", "--real-stride", "10", "--noglob-trees", "1"]),
-                ("MC_Glob_thorC.cfg", ["--real-first", "8", "--real-stride", "4", "--noglob-trees", "1"])],
+                ("MC_Glob_thorC.cfg", ["--real-first", "9", "--real-stride", "4", "--noglob-trees", "1"])],
         "random": (400, 40),
         "shards": 8,
         "timeout": 3000,
